@@ -32,7 +32,8 @@ class UnitSpec:
     """One extraction unit (see DESIGN 3.1/3.2)."""
     def __init__(self, name, tu, filter, emit, spec=None, targets=(), stubs=(), defines=(), plugins=(), drop_calls=(),
                  extra_tus=(), rename=None, opaque_records=None, prelude='', clang_flags=(), functions_doc=None, driver_tu=None,
-                 trusted=(), not_covered=(), dropped_note=None, model_headers=()):
+                 trusted=(), not_covered=(), dropped_note=None, model_headers=(), more_filters=()):
+        self.more_filters = list(more_filters)   # further (tu, filter) dumps of the same translation unit (ids are consistent: ASLR off)
         self.name = name; self.tu = tu; self.filter = filter; self.emit = list(emit)
         self.spec = dict(spec or {}); self.targets = list(targets); self.stubs = list(stubs)
         self.defines = list(defines); self.plugins = list(plugins); self.drop_calls = list(drop_calls)
@@ -101,13 +102,15 @@ def extract(us, workdir):
     """clang AST of the working tree -> C text with the spec's contracts inserted"""
     t0 = time.time()
     docs = []; cmds = []; shas = {}
-    tus = [us.tu] + us.extra_tus
-    for tu in tus:
+    srcs = [(us.tu, us.filter)] + [(t, us.filter) for t in us.extra_tus] + list(getattr(us, 'more_filters', []))
+    def one(tf):
+        tu, flt = tf
         path = tu if os.path.isabs(tu) else os.path.join(REPO, tu)
         if not os.path.exists(path): raise Undecided('source file %s does not exist' % path)
-        d, cmd = cxx2c.clang_ast(path, us.filter, us.clang_flags)
-        docs += d; cmds.append(cmd)
-        shas[tu] = cxx2c.sha256_file(path)
+        return cxx2c.clang_ast(path, flt, us.clang_flags) + (tu, path)
+    with ThreadPoolExecutor(max_workers=4) as ex:
+        for d, cmd, tu, path in ex.map(one, srcs):
+            docs += d; cmds.append(cmd); shas[tu] = cxx2c.sha256_file(path)
     m = models_mod.Models(extra_headers=us.model_headers)
     for pl in us.plugins: m.add(pl)
     unit = cxx2c.Unit(docs, models=m, spec=us.spec, stubs=us.stubs, drop_calls=us.drop_calls, rename=us.rename,
